@@ -4,6 +4,7 @@ package lex
 
 import (
 	"reflect"
+	"strings"
 
 	"github.com/grindlemire/go-lucene/internal/verifspec"
 )
@@ -58,6 +59,55 @@ func StateRank(f tokenStateFn) int {
 
 // WordStart: runes on which lexVal hands over to lexWord directly.
 func WordStart(r rune) bool { return isAlphaNumeric(r) || isWildcard(r) || isEscape(r) }
+
+// WordTyp: the token type of a bare word - one of the four keywords in any letter
+// case, a plain literal otherwise.
+func WordTyp(word string) TokType {
+	switch strings.ToUpper(word) {
+	case "AND":
+		return TAnd
+	case "OR":
+		return TOr
+	case "NOT":
+		return TNot
+	case "TO":
+		return TTO
+	}
+	return TLiteral
+}
+
+// SymbolTyp: the token type of a one-byte symbol.
+func SymbolTyp(b byte) TokType {
+	switch b {
+	case '(':
+		return TLParen
+	case ')':
+		return TRParen
+	case '[':
+		return TLSquare
+	case ']':
+		return TRSquare
+	case '{':
+		return TLCurly
+	case '}':
+		return TRCurly
+	case ':':
+		return TColon
+	case '+':
+		return TPlus
+	case '=':
+		return TEqual
+	case '>':
+		return TGreater
+	case '~':
+		return TTilde
+	case '^':
+		return TCarrot
+	case '<':
+		return TLess
+	}
+	return TErr
+}
 
 // EOFTok: currItem as Next pre-sets it.
 func EOFTok(t Token, pos int) bool { return t.Typ == TEOF && t.Val == "EOF" && t.pos == pos }
@@ -172,6 +222,8 @@ var _ = reflect.ValueOf
 //@   requires LexOK(l) && l.pos < len(l.input)
 //@   ensures  result == nil ==> (TokDone(l, old(l.input), old(l.pos)) && LexOK(l)) || ErrDone(l, old(l.pos))
 //@   ensures  result != nil ==> LexOK(l) && l.input == old(l.input) && l.pos == old(l.pos) && l.start == l.pos && l.currItem == old(l.currItem)
+//@   ensures[minus-sign] result == nil && l.currItem.Typ != TErr && old(l.input)[old(l.pos)] == '-' ==> l.currItem.Typ == TMinus
+//@   ensures[symbols] result == nil && l.currItem.Typ != TErr && old(l.input)[old(l.pos)] != '-' ==> l.currItem.Typ == SymbolTyp(old(l.input)[old(l.pos)])
 //@   ensures  result != nil ==> (SameState(result, lexWord) && (WordStart(verifspec.RuneAt(l.input, l.pos)) || l.input[l.pos] == '-')) ||
 //@            (SameState(result, lexPhrase) && (l.input[l.pos] == '"' || l.input[l.pos] == '\'')) ||
 //@            (SameState(result, lexRegexp) && l.input[l.pos] == '/')
@@ -181,7 +233,7 @@ var _ = reflect.ValueOf
 //@   requires LexOK(l) && l.start == l.pos && l.pos < len(l.input)
 //@   requires WordStart(verifspec.RuneAt(l.input, l.pos)) || l.input[l.pos] == '-'
 //@   ensures  result == nil && TokDone(l, old(l.input), old(l.pos)) && LexOK(l)
-//@   ensures  l.currItem.Typ == TLiteral || l.currItem.Typ == TAnd || l.currItem.Typ == TOr || l.currItem.Typ == TNot || l.currItem.Typ == TTO
+//@   ensures[keyword-by-uppercased-word] l.currItem.Typ == WordTyp(l.currItem.Val)
 //@   loop 0: invariant LexOK(l) && l.input == old(l.input) && l.start == old(l.start) && old(l.pos) <= l.pos
 //@   loop 0: decreases len(l.input) - l.pos + verifspec.B2I(!l.atEOF)
 
